@@ -18,7 +18,7 @@ from fractions import Fraction
 import numpy as np
 import z3
 
-from .loadscale import scaled
+from .loadscale import guarded, scaled
 
 from .ctx import Escape, Violation
 from .encode import Encoder, rv
@@ -180,7 +180,8 @@ def witness(ctx, extra=None):
         for sc in enc.side:
             s.add(sc)
         t0 = time.time()
-        r = s.check()
+        with guarded(scaled(ctx.opts.get('vc_timeout_ms', 30000))):
+            r = s.check()
         ctx.stats.solver_s += time.time() - t0
         ctx.stats.queries += 1
         if r == z3.sat:
@@ -193,7 +194,9 @@ def witness(ctx, extra=None):
         s.add(enc.cond(extra))
     for sc in enc.side:
         s.add(sc)
-    if s.check() == z3.sat:
+    with guarded(scaled(ctx.opts.get('vc_timeout_ms', 30000))):
+        r_ = s.check()
+    if r_ == z3.sat:
         return _model_to_inputs(ctx, s.model())
     return None
 
@@ -327,7 +330,8 @@ def check_close(ctx, a, b, tol, label):
         zim = (z3.Sum(im) if len(im) > 1 else im[0]) if im else z3.RealVal(0)
         viol.append(z3.Or(zre > T, zre < -T, zim > T, zim < -T))
     s.add(z3.Or(viol))
-    r = s.check()
+    with guarded(scaled(ctx.opts.get('vc_timeout_ms', 30000))):
+        r = s.check()
     st.queries += 1
     st.solver_s += time.time() - t0
     _maybe_cross_check(ctx, s, r, 'QF_LRA', label)
@@ -445,7 +449,8 @@ def _query(ctx, mode, L, items, tol, sn, pcs=None):
     for sc in enc.side:
         s.add(sc)
     t0 = time.time()
-    r = s.check()
+    with guarded(scaled(ctx.opts.get('vc_timeout_ms', 30000))):
+        r = s.check()
     ctx.stats.queries += 1
     ctx.stats.solver_s += time.time() - t0
     return r, s
